@@ -5,6 +5,7 @@ set -e
 cd "$(dirname "$0")"
 export CARGO_NET_OFFLINE=true
 python3 tools/translate.py
+mkdir -p coq/extracted work replays
 ( cd coq && coq_makefile -f _CoqProject -o Makefile >/dev/null && timeout 3000 make -k -j16 2>&1 | grep -v "^COQC\|^COQDEP\|Closed under" | tail -20 )
 ( cd ocaml && ./build.sh )
 cp /repo/Cargo.lock harness/Cargo.lock
